@@ -132,6 +132,22 @@ PROPS = {
                      "spec values survive a JSON round trip (integers of magnitude above 2^53 are outside the generator)"],
         explanation="three history theorems for ANY script and any number of references; the same clause booleans and the model itself are evaluated against the real provider",
     ),
+    "C16": dict(
+        engines=[dict(name="luajson", quick=1200, thorough=40000, shard=600, trivial_tags=[])],
+        rule="case 0 enumerates the globals a script can name inside the real VM (two levels) and runs six capability probes (dofile / loadfile / require on a temp file, io, os, "
+             "load of a string); cases 1-26 are the hostile-script corpus (busy loops incl. inside pcall, unbounded and mutual recursion, __index recursion, error with string / table, "
+             "nil index, wrong return types, no return, function values, cyclic / sparse / mixed-key tables, os.exit, os.execute, io.open, require, string doubling, syntax error) "
+             "run through RunLuaScript + Encode with wall time and recovered panics recorded; the rest are generated JSON-like values (depth <= 4: null, bool, ints incl. negative, "
+             "0 and up to 2^51, strings incl. empty and quoted, empty and nested arrays/objects, null members/elements, numeric-looking keys) handed to a script as int64 or float64 "
+             "and returned, and generated Lua tables (array part with holes, string-keyed part, non-positive numeric and boolean keys, function values, nesting) built through "
+             "RawSet and passed to Encode; non-trivial = every case; distinct = distinct input JSON",
+        trusted=["gopher-lua (VM, table implementation, context deadline) -- its termination and panic-freedom are tested, not proved",
+                 "the classification reaches_os (which names touch files, processes or the network) is read off gopher-lua's library sources"],
+        assumptions=["numbers are integers of magnitude below 2^53 (exact doubles); strings are printable ASCII in the generator",
+                     "cyclic tables cannot be written in the tree model (covered by the corpus: errNested)", "memory and nesting bombs are outside the claim (property text)"],
+        explanation="round-trip theorems over all JSON values by nested induction; capability surface proved by computation over the finite list and compared with the real VM; "
+                    "time / panic clauses are tests on the corpus",
+    ),
     "C17": dict(
         engines=[dict(name="deployctl", quick=1200, thorough=60000, shard=400, trivial_tags=["no-change"])],
         rule="seeded generator of (replicas 0..100, partition int/percent incl. 0/1/99/100%, maxSurge/maxUnavailable int/percent/absent, new ReplicaSet size and availability, 0-5 old "
@@ -261,6 +277,15 @@ MANIFEST_TEXT = {
         note="The Gallina model of the VirtualService script covers the weight path fully and the matches path up to the content of the generated match/headers blocks; Update failures are not injected; integers "
              "above 2^53 in a spec lose precision in the snapshot's JSON round trip (outside the generator, recorded as an observation in DESIGN.md).",
         design_ref="DESIGN.md section 9, C15"),
+    "C16": dict(
+        text="Partial proof. Proved for every JSON-like value (unbounded depth and size): handing a value to a script (decodeValue / DecodeValue) and taking it back (Encode) yields "
+             "exactly the value with null members/elements removed and empty containers turned into null, and values without those come back unchanged; the finite list of globals "
+             "a script can name contains nothing that reaches files, processes or the network. The Gallina decoder/encoder (including gopher-lua's table iteration order as far as "
+             "the encoder depends on it) is compared with the real code on generated values and tables, and the list of globals with the real VM's global table plus six capability "
+             "probes, on every run. Bounded return time, error-or-table result and absence of panics are TESTED on a corpus of 26 hostile scripts, not proved.",
+        note="Termination within the 1 s deadline, stack limits and absence of Go panics are properties of the gopher-lua interpreter for which no formal semantics is available "
+             "here: those clauses are tests (corpus + wall-clock bound of 3 s). Blocking of the worker by CPU-bound Go code inside the VM (e.g. string.rep) is outside the model.",
+        design_ref="DESIGN.md section 9, C16"),
     "C17": dict(
         text="Proof (two of four clauses): for every state of a partition-style Deployment and one sync of the advanced deployment controller, the new ReplicaSet never grows beyond "
              "max(current size, partition limit) while old pods exist and is never scaled up so that the total exceeds replicas + maxSurge. The model of reconcileNew/OldReplicaSets "
